@@ -18,6 +18,9 @@ pub fn check_stream(v: &(Stream, u32), rep: &mut Rep) -> Result<(), String> {
     rep.label_if(stream.serial, "serial");
     rep.label_if(!stream.serial, "storage");
     let n = enc.msgs.len();
+    // every index has to be representable: a start index too close to the end is moved so that the last message gets u32::MAX
+    let start = &(if n > 0 && start.checked_add(n as u32 - 1).is_none() { u32::MAX - (n as u32 - 1) } else { *start });
+    rep.label_if(n > 0 && *start == u32::MAX - (n as u32 - 1), "last_index_is_u32_max");
     let first_start = enc.msgs.first().map(|m| m.0);
     rep.label_if(
         stream.serial && first_start.map_or(false, |s| enc.bytes.len() - s < 20),
@@ -110,7 +113,7 @@ fn short(m: &adlt::dlt::DltMessage) -> String {
 }
 
 pub fn def(tier: Tier) -> PropertyDef {
-    let start = prop_oneof![Just(0u32), 0u32..1000, 0u32..(u32::MAX - 100)];
+    let start = prop_oneof![2 => Just(0u32), 2 => 0u32..1000, 2 => 0u32..(u32::MAX - 100), 1 => (u32::MAX - 50)..=u32::MAX];
     let subs = vec![
         sub(
             "framing_small",
@@ -118,7 +121,7 @@ pub fn def(tier: Tier) -> PropertyDef {
             (stream(20, false, 300), start.clone()),
             check_stream,
         )
-        .rates(&[("serial", 0.3), ("storage", 0.3), ("has_garbage", 0.3), ("trailing_garbage", 0.1), ("with_logger", 0.2), ("serial_first_msg_in_last_19_bytes", 0.0005)])
+        .rates(&[("serial", 0.3), ("storage", 0.3), ("has_garbage", 0.3), ("trailing_garbage", 0.1), ("with_logger", 0.2), ("serial_first_msg_in_last_19_bytes", 0.0005), ("last_index_is_u32_max", 0.02)])
         .boxed(),
         sub(
             "framing_huge",
